@@ -86,6 +86,34 @@ def run(ctx: Ctx):
             ref = 10 ** ((1 - t) * (1 - s) * lg[0, 0] + (1 - t) * s * lg[0, 1] + t * (1 - s) * lg[1, 0] + t * s * lg[1, 1])
             if not close(ref, P[i], 1e-9):
                 ctx.violation("Taus.tau_exit_prob", "not-log-bilinear", "value is not 10^(bilinear interpolation of log10 table)", {**case, "expected": float(ref)})
+        # batches in which every event has the same energy (mono-energetic runs), on and off the energy grid: the value of an
+        # event is the log-bilinear table value and does not depend on the rest of the batch
+        for e_one in (float(gE[3]), 8.1, 6.37, float(rng.uniform(gE[0], gE[-1])), 11.99):
+            nb_ = 64
+            bb = rng.uniform(0.0, 0.8, nb_); bb[:3] = [bmin, bmax, 0.0]
+            lone = np.full(nb_, e_one)
+            P1 = make_taus(v).tau_exit_prob(bb.copy(), lone.copy())
+            lmix = lone.copy(); lmix[-1] = float(gE[5]) + 0.013; bmixed = bb.copy()
+            P2 = make_taus(v).tau_exit_prob(bmixed, lmix)
+            om = run_driver([f"pexit {v} 0 {f2h(bb[i])} {f2h(e_one)}" for i in range(nb_)])
+            for i in range(nb_):
+                ctx.case(("mono-batch", v, e_one, i))
+                case = {"version": v, "beta": float(bb[i]), "log_e_nu": e_one, "pexit_in_single_energy_batch": float(P1[i]), "pexit_in_mixed_batch": float(P2[i])}
+                if om[i][0] != "ok" or not close(h2f(om[i][1]), P1[i], 1e-9):
+                    ctx.disagree("C05.pexit.mono-batch", {**case, "model": " ".join(om[i])})
+                if i < nb_ - 1 and P1[i] != P2[i]:
+                    ctx.violation("Taus.tau_exit_prob", "depends-on-rest-of-batch", "the value of an event depends on the other events of the batch", case)
+                    break
+                if bb[i] <= bmax:
+                    bq = max(bb[i], bmin)
+                    ie = min(max(np.searchsorted(gE, e_one) - 1, 0), len(gE) - 2); jb = min(max(np.searchsorted(gB, bq) - 1, 0), len(gB) - 2)
+                    t = (e_one - gE[ie]) / (gE[ie + 1] - gE[ie]); s_ = (bq - gB[jb]) / (gB[jb + 1] - gB[jb])
+                    lg = np.log10(flo[ie:ie + 2, jb:jb + 2])
+                    ref = 10 ** ((1 - t) * (1 - s_) * lg[0, 0] + (1 - t) * s_ * lg[0, 1] + t * (1 - s_) * lg[1, 0] + t * s_ * lg[1, 1])
+                    if not close(ref, P1[i], 1e-9):
+                        ctx.violation("Taus.tau_exit_prob", "not-log-bilinear", "value is not 10^(bilinear interpolation of log10 table) in a single-energy batch", {**case, "expected": float(ref)})
+                        break
+            ctx.count("mono_energy_batches")
         # node exactness against the raw file
         I = rng.integers(0, len(gE), 300); J = rng.integers(0, len(gB), 300)
         Pn = fresh.tau_exit_prob(gB[J].copy(), gE[I].copy())
